@@ -35,6 +35,20 @@ func main() {
 		os.Exit(cmdCheck(os.Args[2:]))
 	case "list":
 		cmdList()
+	case "loops":
+		// gvc loops <pkgpath> <funcname-substring>: loop ordinals with source lines
+		prog, err := LoadProgram(repoDir, "verif", []string{os.Args[2]})
+		if err != nil {
+			fmt.Fprintln(os.Stderr, err)
+			os.Exit(2)
+		}
+		for k, fn := range prog.funcs {
+			if strings.Contains(k, os.Args[3]) && strings.HasPrefix(k, os.Args[2]) {
+				for _, l := range FindLoops(fn) {
+					fmt.Printf("%s loop %d: head block %d at %s (%d blocks)\n", shortPkg(k), l.Ord, l.Head.Index, prog.Fset.Position(loopPos(l)), len(l.Blocks))
+				}
+			}
+		}
 	case "replay":
 		os.Exit(cmdReplay(os.Args[2:]))
 	case "selftest":
